@@ -351,6 +351,18 @@ fn gen_program(rng: &mut Rng) -> (Program, Vec<&'static str>) {
             }
         }
     }
+    if g.wild && g.rng.chance(1, 5) {
+        // a block whose TID already looks like the clone of another function's block in this function
+        let si = g.rng.below(n_subs as u64) as usize;
+        let others: Vec<Tid> = (0..n_subs).filter(|&j| j != si).flat_map(|j| g.blocks[j].clone()).collect();
+        if subs[si].term.blocks.len() > 1 && !others.is_empty() {
+            let o = g.rng.pick(&others).clone();
+            let name = format!("{}_{}", tid_id(&o), tid_id(&subs[si].tid));
+            let k = subs[si].term.blocks.len() - 1;
+            subs[si].term.blocks[k].tid = tid_at(&name, &o.address);
+            g.feat.insert("wild-suffix-collision");
+        }
+    }
     if g.wild && g.rng.chance(1, 6) {
         // two functions whose IDs agree but whose addresses differ
         if let Some(s) = subs.first().cloned() {
